@@ -14,6 +14,11 @@ template bodies included) and turns each method body into the ordered list of ev
   bound to a non-const reference, address taken, or anything not recognised: the translator errs towards
   reporting);
 * members of type std::atomic<..> / SharedVariable<..> / SharedOptionalVariable<..> give `atomic f`;
+  in the EXTENDED table (`xcls_<Class>`, emitted for every class that has such a member event) the same event is
+  `ald f` (a `.load()` / conversion-operator call: one atomic load), `ast f` (a `.store(v)` / `operator=` call: one
+  atomic store) or `armw f` (anything else: exchange, fetch_add, compare_exchange, ++, a reference bound to the
+  member, an unrecognised use) — so a load / store of such a member AFTER the release of the guard is visible
+  as such (`RomeaModel/LinAtomic.lean` checks the shape of `RateMonitoring` on it);
 * calls of other methods of the same object (this->g()) are inlined;
 * a method returning a reference or pointer to a member gives `escape f` after its last `rel`
   (the caller reads f after the lock is gone);
@@ -103,6 +108,7 @@ class Summariser:
         self.bases = bases
         self.unclassified = []
         self.alias = {}                      # id of a local reference / pointer variable -> member it aliases
+        self.akind = {}                      # id() of a MemberExpr node of an atomic member -> 'ald' | 'ast' (else 'armw')
 
     def lookup(self, cls, name):
         seen = set()
@@ -176,6 +182,8 @@ class Summariser:
             for m in reversed(held):
                 evs.append(('rel', m))
             return
+        if k in ('CXXMemberCallExpr', 'CXXOperatorCallExpr') and n.get('inner'):
+            self.note_atomic_call(n)
         if k == 'CXXMemberCallExpr' and n.get('inner'):
             callee = n['inner'][0]
             if callee.get('kind') == 'MemberExpr' and is_this_member(callee) and qual(callee) == '<bound member function type>':
@@ -196,8 +204,8 @@ class Summariser:
             if tt.startswith('std::mutex') or tt.startswith('mutex') or 'std::mutex' in tt:
                 evs.append(('rd', '?mutex-use:' + f))     # a mutex used other than in a lock guard
                 self.unclassified.append('%s: mutex %s used outside a lock guard' % (cls, f))
-            elif any(tt.startswith(a) or (' ' + a) in (' ' + tt) for a in ATOMIC_TYPES):
-                evs.append(('atomic', f))
+            elif is_atomic_type(tt):
+                evs.append((self.akind.get(id(n), 'armw'), f))
             else:
                 evs.append((self.classify(n, parent), f))
             return
@@ -219,6 +227,27 @@ class Summariser:
                 f = self.root_field(n['inner'][1])
                 if f is not None:
                     self.alias[(lhs.get('referencedDecl') or {}).get('id')] = f
+
+    def note_atomic_call(self, n):
+        """`x_.load()` / `x_.store(v)` / `x_ = v` / conversion operator on an atomic member `x_` of `this`: remember, for
+        the MemberExpr node of `x_`, whether the call is one atomic load or one atomic store"""
+        inner = n['inner']
+        if n.get('kind') == 'CXXMemberCallExpr':
+            callee = inner[0]
+            if callee.get('kind') != 'MemberExpr' or qual(callee) != '<bound member function type>' or not callee.get('inner'):
+                return
+            obj, name = strip_casts(callee['inner'][0]), callee.get('name') or ''
+        else:
+            ref = strip_casts(inner[0])
+            if ref.get('kind') != 'DeclRefExpr' or len(inner) < 2:
+                return
+            obj, name = strip_casts(inner[1]), (ref.get('referencedDecl') or {}).get('name') or ''
+        if not (is_this_member(obj) and is_atomic_type(qual(obj).replace('const ', '').strip())):
+            return
+        if name == 'load' or (name.startswith('operator ') and not name.startswith('operator new')):
+            self.akind[id(obj)] = 'ald'
+        elif name in ('store', 'operator='):
+            self.akind[id(obj)] = 'ast'
 
     def lock_decl(self, n):
         if n.get('kind') != 'DeclStmt':
@@ -255,6 +284,18 @@ class Summariser:
             if ck == 'NoOp' and qual(parent).startswith('const '):
                 return 'rd'
         return 'wr'
+
+
+def is_atomic_type(tt):
+    return any(tt.startswith(a) or (' ' + a) in (' ' + tt) for a in ATOMIC_TYPES)
+
+
+XATOMIC = ('ald', 'ast', 'armw')
+
+
+def plain_events(evs):
+    """the event list of the base table: every kind of atomic-member event is `atomic f`"""
+    return [('atomic', f) if k in XATOMIC else (k, f) for k, f in evs]
 
 
 ACCESS = {}
@@ -339,15 +380,19 @@ def build_table(repo, workdir):
 
         def entry(c_, name):
             return name in SCOPE and ACCESS.get(c_, {}).get(name, 'public') == 'public'
+        xs = []
         for name in sorted(methods.get(cls, {})):
             if entry(cls, name):
-                ms.append((name, S.summarise(cls, methods[cls][name][0])))
+                xs.append((name, S.summarise(cls, methods[cls][name][0])))
         # inherited public methods are part of the class's interface too
         for b in bases.get(cls, []):
             for name in sorted(methods.get(b, {})):
-                if name not in dict(ms) and entry(b, name):
-                    ms.append((name, S.summarise(b, methods[b][name][0])))
-        table.append({'name': cls, 'fields': fl, 'methods': ms})
+                if name not in dict(xs) and entry(b, name):
+                    xs.append((name, S.summarise(b, methods[b][name][0])))
+        ms = [(name, plain_events(evs)) for name, evs in xs]
+        # 'methods': the base table (atomic-member events are `atomic f`); 'xmethods': the same lists with the
+        # atomic-member events split into ald / ast / armw
+        table.append({'name': cls, 'fields': fl, 'methods': ms, 'xmethods': xs})
     return table, S.unclassified, raw_sizes
 
 
@@ -359,6 +404,7 @@ def emit_lean(table, path, note):
            'namespace Romea.Generated.C19',
            'open Romea.Lockset', '']
     cls_defs = []
+    xcls_defs = []
     for c in table:
         names = []
 
@@ -379,6 +425,20 @@ def emit_lean(table, path, note):
             ident, c['name'], '[' + ', '.join(map(str, mutexes)) + ']', ',\n'.join(ms)))
         out.append('')
         cls_defs.append(ident)
+        # extended table entry (atomic-member events split into ald / ast / armw), same field numbering
+        xms = c.get('xmethods') or []
+        if any(k in XATOMIC for _, evs in xms for k, _ in evs):
+            xl = []
+            for mname, evs in xms:
+                es = ', '.join('.%s %d' % (k, idx(f)) for k, f in evs)
+                xl.append('    { name := "%s", evs := [%s] }' % (mname, es))
+            out.append('/-- `%s` with the events of its atomic / internally synchronised members split into loads (`ald`), stores (`ast`) '
+                       'and other uses (`armw`); same field numbers -/' % ident)
+            out.append('def x%s : XClass :=\n  { name := "%s", mutexes := %s, methods := [\n%s] }' % (
+                ident, c['name'], '[' + ', '.join(map(str, mutexes)) + ']', ',\n'.join(xl)))
+            out.append('')
+            xcls_defs.append('x' + ident)
+    out.append('def xtable : List XClass := [%s]' % ', '.join(xcls_defs))
     out.append('def table : List Class := [%s]' % ', '.join(cls_defs))
     out.append('end Romea.Generated.C19')
     new = '\n'.join(out) + '\n'
@@ -397,7 +457,7 @@ def main():
         table, uncls, sizes = build_table(repo, d)
     for c in table:
         print(c['name'], 'fields:', list(c['fields']))
-        for m, evs in c['methods']:
+        for m, evs in c.get('xmethods') or c['methods']:
             print('   ', m, ' '.join('%s(%s)' % e for e in evs))
     print('unclassified:', uncls)
     emit_lean(table, out, 'regenerated')
